@@ -144,24 +144,25 @@ def OwnDisjoint : List PSchema → Prop
   | [] => True
   | p :: rest => (∀ q ∈ rest, ∀ o ∈ q.own, ∀ o' ∈ p.own, o'.name ≠ o.name) ∧ OwnDisjoint rest
 
-theorem visitSchema_prints (done : List PSchema) (fs : FileSt) (p : PSchema) (hcl : Clean done fs) (wf : WellFormed p)
+theorem visitSchema_prints (d : Bool) (done : List PSchema) (fs : FileSt) (p : PSchema) (hcl : Clean done fs) (wf : WellFormed p)
     (hun : fs.unprocessed p.name = true)
     (hdep : ∀ n, isForeign p.os n = true → ∃ q ∈ done, ∃ o ∈ q.own, o.name = n)
     (hnames : ∀ q ∈ done, q.name ≠ p.name)
     (hfresh : ∀ o ∈ p.own, fs.marks o.name ≠ .processed) :
-    (visitSchema .untilSettledOrStalled .inSchemaOrProcessed fs p).printed
+    (visitSchema d .untilSettledOrStalled .inSchemaOrProcessed fs p).printed
         = fs.printed ++ (if p.own.isEmpty then [] else [(p.name, 0)]) ∧
-    (∀ k, (∀ o ∈ p.own, o.name ≠ k) → (visitSchema .untilSettledOrStalled .inSchemaOrProcessed fs p).marks k = .processed →
+    (∀ k, (∀ o ∈ p.own, o.name ≠ k) → (visitSchema d .untilSettledOrStalled .inSchemaOrProcessed fs p).marks k = .processed →
         fs.marks k = .processed) := by
-  have hclean := (visitSchema_clean done fs p hcl wf hun hdep hnames).1
+  have hclean := (visitSchema_clean d done fs p hcl wf hun hdep hnames).1
   have hfd : FDone p.os fs.marks := by
     intro n hn
     obtain ⟨q, hq, o, ho, e⟩ := hdep n hn
     rw [← e]; exact hcl.processed q hq o ho
   obtain ⟨s, hs, _, hsu, _, _⟩ := passResult_ready p fs.marks wf hcl.nocant hfd
-  have ev : visitSchema .untilSettledOrStalled .inSchemaOrProcessed fs p = finishVisit fs p s := by
+  have ev : visitSchema d .untilSettledOrStalled .inSchemaOrProcessed fs p = finishVisit fs p s := by
     unfold visitSchema
     rw [if_neg (by rw [hun, hcl.nothung]; decide), unsetObjs_id p fs.marks hcl.nocant, hs]
+    simp only [hsu, Bool.and_false, Bool.false_and, Bool.false_eq_true, if_false]
   have hnp : NP fs.marks s.marks := np_passResult _ _ p fs.marks s hs
   have hsuf : (if s.schemaUnprocessed || fs.counter p.name > 0 then fs.counter p.name + 1 else 0) = 0 := by
     rw [hsu, hcl.counters p.name]; simp
@@ -191,16 +192,16 @@ theorem visitSchema_prints (done : List PSchema) (fs : FileSt) (p : PSchema) (hc
     simp only [hown, Bool.and_false, Bool.false_and, Bool.false_eq_true, if_false] at hp
     exact hnp k hp
 
-theorem round_prints (done todo : List PSchema) (fs : FileSt) (hcl : Clean done fs) (hord : InDependencyOrder done todo)
+theorem round_prints (d : Bool) (done todo : List PSchema) (fs : FileSt) (hcl : Clean done fs) (hord : InDependencyOrder done todo)
     (hun : ∀ q ∈ todo, fs.unprocessed q.name = true)
     (hfresh : ∀ q ∈ todo, ∀ o ∈ q.own, fs.marks o.name ≠ .processed) (hdj : OwnDisjoint todo) :
-    (todo.foldl (visitSchema .untilSettledOrStalled .inSchemaOrProcessed) fs).printed = fs.printed ++ expectedPrinted todo := by
+    (todo.foldl (visitSchema d .untilSettledOrStalled .inSchemaOrProcessed) fs).printed = fs.printed ++ expectedPrinted todo := by
   induction todo generalizing done fs with
   | nil => simp [expectedPrinted]
   | cons p rest ih =>
     obtain ⟨wf, hdep, hn1, hn2, hrest⟩ := hord
-    have st := visitSchema_clean done fs p hcl wf (hun p List.mem_cons_self) hdep hn1
-    have pr := visitSchema_prints done fs p hcl wf (hun p List.mem_cons_self) hdep hn1 (hfresh p List.mem_cons_self)
+    have st := visitSchema_clean d done fs p hcl wf (hun p List.mem_cons_self) hdep hn1
+    have pr := visitSchema_prints d done fs p hcl wf (hun p List.mem_cons_self) hdep hn1 (hfresh p List.mem_cons_self)
     simp only [List.foldl_cons]
     rw [ih (done ++ [p]) _ st.1 hrest
       (fun q hq => by rw [st.2 q.name (hn2 q hq)]; exact hun q (List.mem_cons_of_mem _ hq))
@@ -211,17 +212,21 @@ theorem round_prints (done todo : List PSchema) (fs : FileSt) (hcl : Clean done 
     · simp [expectedPrinted, hemp]
     · simp [expectedPrinted, hemp]
 
-/-- for a file in dependency order everything happens in the first round -/
-theorem printFile_first_round (schemas : List PSchema) (hord : InDependencyOrder [] schemas) (fuel : Nat) :
-    printFile .untilSettledOrStalled .inSchemaOrProcessed schemas (fuel + 1)
-      = schemas.foldl (visitSchema .untilSettledOrStalled .inSchemaOrProcessed) fileStart := by
+/-- for a file in dependency order everything happens in the first round (with or without the deferral, which never fires) -/
+theorem printFile_first_round (d : Bool) (schemas : List PSchema) (hord : InDependencyOrder [] schemas) (fuel : Nat) :
+    (printFile .untilSettledOrStalled .inSchemaOrProcessed schemas (fuel + 1) d).printed
+        = (schemas.foldl (visitSchema d .untilSettledOrStalled .inSchemaOrProcessed) fileStart).printed ∧
+    (printFile .untilSettledOrStalled .inSchemaOrProcessed schemas (fuel + 1) d).hung
+        = (schemas.foldl (visitSchema d .untilSettledOrStalled .inSchemaOrProcessed) fileStart).hung ∧
+    (printFile .untilSettledOrStalled .inSchemaOrProcessed schemas (fuel + 1) d).unprocessed
+        = (schemas.foldl (visitSchema d .untilSettledOrStalled .inSchemaOrProcessed) fileStart).unprocessed := by
   have h0 : Clean [] fileStart :=
     ⟨fun k => by simp [fileStart], rfl, fun _ => rfl, fun q hq => absurd hq List.not_mem_nil,
      fun q hq => absurd hq List.not_mem_nil, fun x hx => absurd hx List.not_mem_nil⟩
-  have h1 := round_clean [] schemas fileStart h0 hord (fun _ _ => rfl)
+  have h1 := round_clean d [] schemas fileStart h0 hord (fun _ _ => rfl)
   simp only [List.nil_append] at h1
   have hstop : ∀ n (fs : FileSt), (∀ q ∈ schemas, fs.unprocessed q.name = false) →
-      rounds .untilSettledOrStalled .inSchemaOrProcessed schemas n fs = fs := by
+      rounds d .untilSettledOrStalled .inSchemaOrProcessed schemas n fs = fs := by
     intro n fs hfin
     cases n with
     | zero => rfl
@@ -230,26 +235,29 @@ theorem printFile_first_round (schemas : List PSchema) (hord : InDependencyOrder
       have : schemas.any (fun p => fs.unprocessed p.name) = false := by
         rw [List.any_eq_false]; intro q hq; rw [hfin q hq]; decide
       simp [this]
+  have hfin : ∀ q ∈ schemas, (round d .untilSettledOrStalled .inSchemaOrProcessed schemas fileStart).unprocessed q.name = false :=
+    fun q hq => h1.finished q hq
   unfold printFile
   simp only [rounds]
   split
-  · exact hstop fuel _ h1.finished
+  · rw [hstop fuel _ hfin]
+    exact ⟨rfl, rfl, rfl⟩
   · rename_i hany
     have hemp : schemas = [] := by
       cases schemas with
       | nil => rfl
       | cons a r => simp [fileStart] at hany
     subst hemp
-    rfl
+    exact ⟨rfl, rfl, rfl⟩
 
 /-- **the `SCHEMAprint` calls of a file in dependency order**: one `(name, 0)` per schema with an own object, nothing else -/
-theorem printFile_printed (schemas : List PSchema) (hord : InDependencyOrder [] schemas) (hdj : OwnDisjoint schemas) (fuel : Nat) :
-    (printFile .untilSettledOrStalled .inSchemaOrProcessed schemas (fuel + 1)).printed = expectedPrinted schemas := by
-  rw [printFile_first_round schemas hord fuel]
+theorem printFile_printed (d : Bool) (schemas : List PSchema) (hord : InDependencyOrder [] schemas) (hdj : OwnDisjoint schemas) (fuel : Nat) :
+    (printFile .untilSettledOrStalled .inSchemaOrProcessed schemas (fuel + 1) d).printed = expectedPrinted schemas := by
+  rw [(printFile_first_round d schemas hord fuel).1]
   have h0 : Clean [] fileStart :=
     ⟨fun k => by simp [fileStart], rfl, fun _ => rfl, fun q hq => absurd hq List.not_mem_nil,
      fun q hq => absurd hq List.not_mem_nil, fun x hx => absurd hx List.not_mem_nil⟩
-  have := round_prints [] schemas fileStart h0 hord (fun _ _ => rfl) (fun q _ o _ => by simp [fileStart]) hdj
+  have := round_prints d [] schemas fileStart h0 hord (fun _ _ => rfl) (fun q _ o _ => by simp [fileStart]) hdj
   simpa [fileStart] using this
 
 end StepModel.GenFiles.Pass
